@@ -20,6 +20,7 @@ import numpy as np
 
 from qv.lib import Rec, diff_snap, rng_for, snap_atoms
 
+PACKAGE_RAISE_IS_VIOLATION = True  # every shard input is built inside the statement's domain (see qv/shard.py)
 LEVEL = "exploration"
 RULE = (
     "reinsertion: one evaluation = delete(indices) then reinsert on an atoms object with a random set of per-atom arrays; "
